@@ -105,6 +105,9 @@ type env struct {
 	root string
 	// privPorts: ports uid 65534 was seen to be refused (EACCES) on 127.0.0.1.
 	privPorts []int
+	// ttyw: how a /dev/tty that is there but unusable can be made here (nil:
+	// not at all).
+	ttyw *ttyWorld
 }
 
 func must(err error) {
@@ -311,6 +314,9 @@ type caseSpec struct {
 	// stdio: nil, or (TTY runs only) what descriptors 0-2 are while the pty is
 	// the controlling terminal all the same.
 	stdio *stdio
+	// tty: nil, or what /dev/tty is in the private mount namespace the program
+	// is started in (engines badtty, badttypair).
+	tty *badTTY
 }
 
 // Ways of configuring an openable log file: through the flag or through the
@@ -339,6 +345,9 @@ func (e *env) names(c caseSpec) []string {
 	if c.noTTY {
 		n = append(n, clNoTTY)
 	}
+	if c.tty != nil {
+		n = append(n, clNoTTY+"/dev-tty-is:"+ttyKinds[c.tty.kind].name)
+	}
 	sort.Strings(n)
 	return n
 }
@@ -348,7 +357,7 @@ func (e *env) classes(c caseSpec) []string {
 	for _, i := range c.faults {
 		m[e.faults[i].class] = true
 	}
-	if c.noTTY {
+	if c.noTTY || c.tty != nil {
 		m[clNoTTY] = true
 	}
 	var out []string
@@ -441,6 +450,8 @@ type runRecord struct {
 	WallMs     int64    `json:"wall_ms"`
 	// descriptors 0-2 when they are not all the controlling terminal
 	Stdio string `json:"descriptors,omitempty"`
+	// what /dev/tty is in the program's private mount namespace
+	DevTTY string `json:"dev_tty_is,omitempty"`
 	// an openable log file configured on top of the faults
 	Log      string `json:"openable_log_file,omitempty"`
 	LogThere *bool  `json:"log_file_exists_after_run,omitempty"`
@@ -502,6 +513,9 @@ func (e *env) runCase(c caseSpec, col *collector) {
 			strong = false
 		}
 	}
+	if c.tty != nil && ttyKinds[c.tty.kind].uid {
+		uid = nobody
+	}
 	logPath := ""
 	if c.logMode != "" {
 		logPath = openableLog(dir, c.logMode)
@@ -544,6 +558,9 @@ func (e *env) runCase(c caseSpec, col *collector) {
 	if c.stdio != nil {
 		classKey += "@redirected-stdio"
 	}
+	if c.tty != nil {
+		classKey += "@unusable-dev-tty"
+	}
 	sig := fmt.Sprintf("%v|%s|tty=%v", names, c.flag, !c.noTTY)
 	if c.logMode != "" {
 		sig += "|openable-log=" + c.logMode
@@ -551,18 +568,31 @@ func (e *env) runCase(c caseSpec, col *collector) {
 	if c.stdio != nil {
 		sig += "|" + c.stdio.String()
 	}
+	if c.tty != nil {
+		sig += "|dev-tty=" + ttyKinds[c.tty.kind].name
+	}
 
 	t0 := time.Now()
 	var p *ptyx.Proc
 	var m *mixed
 	var err error
+	// what is started: the program, or (unusable /dev/tty) the helper that
+	// becomes the program once the namespace is made and the user changed
+	path, runArgs, startUid := e.bin, args, uid
+	if c.tty != nil {
+		if path, runArgs, err = e.startBadTTY(c, dir, args, uid); err != nil {
+			r.Inconclusive(fmt.Sprintf("%s: cannot prepare what /dev/tty is to be: %v", sig, err))
+			return
+		}
+		startUid = 0
+	}
 	if c.stdio != nil {
-		if m, err = startMixed(dir, *c.stdio, []byte("echo c20 from standard input\n"), e.bin, args, envv, uid); err == nil {
+		if m, err = startMixed(dir, *c.stdio, []byte("echo c20 from standard input\n"), path, runArgs, envv, startUid); err == nil {
 			p = m.p
 			defer m.close()
 		}
 	} else {
-		if p, err = ptyx.Start(ptyx.Opts{Path: e.bin, Args: args, Env: envv, Dir: dir, NoTTY: c.noTTY, Uid: uid}); err == nil {
+		if p, err = ptyx.Start(ptyx.Opts{Path: path, Args: runArgs, Env: envv, Dir: dir, NoTTY: c.noTTY, Uid: startUid}); err == nil {
 			defer p.Close()
 		}
 	}
@@ -611,6 +641,9 @@ func (e *env) runCase(c caseSpec, col *collector) {
 	if c.stdio != nil {
 		rec.Stdio = c.stdio.String()
 	}
+	if c.tty != nil {
+		rec.DevTTY = ttyKinds[c.tty.kind].name + " (probe: " + e.ttyw.how[c.tty.kind] + ")"
+	}
 	if c.logMode != "" {
 		rec.Log = c.logMode + ": " + logPath
 		if fi, err := os.Stat(logPath); err == nil {
@@ -649,6 +682,12 @@ func (e *env) runCase(c caseSpec, col *collector) {
 	}
 	rec.Output = tail(out, 1500)
 	rec.WallMs = time.Since(t0).Milliseconds()
+	if c.tty != nil && exited && (rec.Status == ttySetupFailed || strings.Contains(out, ttySetupMark)) {
+		// the namespace could not be made although the probe could: not a run
+		r.Count("unusable_tty_setup_failures", 1)
+		r.Inconclusive(fmt.Sprintf("%s: the private mount namespace could not be set up: status %d, %q", sig, rec.Status, tail(out, 300)))
+		return
+	}
 	if exited {
 		r.Count(fmt.Sprintf("exit_status_%d", rec.Status), 1)
 	}
@@ -774,11 +813,13 @@ func (e *env) runCase(c caseSpec, col *collector) {
 	}
 
 	// Terminal mode.
+	compared := false
 	if !c.noTTY {
 		after, err := p.After()
 		if err != nil {
 			r.Inconclusive(fmt.Sprintf("%s: cannot read the terminal mode after exit: %v", sig, err))
 		} else {
+			compared = true
 			r.Count("termios_comparisons", 1)
 			if c.stdio != nil {
 				r.Count("stdio_termios_comparisons", 1)
@@ -893,6 +934,10 @@ func (e *env) runCase(c caseSpec, col *collector) {
 		}
 	}
 
+	if c.tty != nil {
+		e.countBadTTY(c, strong, clean, compared)
+	}
+
 	kind := "fault-single"
 	switch {
 	case c.flag != flNone:
@@ -910,6 +955,18 @@ func (e *env) runCase(c caseSpec, col *collector) {
 	}
 	if c.stdio != nil {
 		kind += "-with-redirected-stdio"
+	}
+	if c.tty != nil {
+		kind = "unusable-dev-tty-that-cannot-be-opened"
+		if e.ttyw.opens(c.tty.kind) {
+			kind = "unusable-dev-tty-that-can-be-opened"
+		}
+		switch {
+		case c.flag != flNone:
+			kind += "-informational-flag"
+		case len(c.faults) > 0:
+			kind += "-and-another-fault"
+		}
 	}
 	r.Sample(kind, rec)
 	if len(c.faults) == 1 && !c.noTTY && c.flag == flNone {
@@ -1357,7 +1414,7 @@ func probeUid(r *mon.Run, root string) (bool, string) {
 }
 
 func Run(r *mon.Run) {
-	r.Rule = "one distinct case = (set of injected start-up faults by name, informational flag, TTY or not, and - engines logged/loggedpair - the way an OPENABLE log file is configured on top: -log or CURLREVSHELL_LOG, file fresh or already there; engines stdio/stdiopair - what descriptors 0, 1 and 2 are while the pty stays the CONTROLLING terminal: the terminal, /dev/null, a pipe, a regular file, closed) for fault runs, (way of ending, option set) for clean exits, (way of ending, what descriptors 0-2 are, option set) for clean exits with redirected descriptors (engine stdioclean), (kind of unusable Ctrl+I source or member, member name, -print-ctrl-i on a TTY / without one / into a pipe / into a file or Tab / Ctrl+J followed by Ctrl+C / Ctrl+D, other fault) for the Ctrl+I source runs (engine ctrlisrc), (way of ending, when Tab was pressed relative to it, shell none/attached/stalled, kind of Ctrl+I source, option set) for exits with insertions pending, (signals / terminal events delivered to the running program: SIGCONT alone, to the process or its group, SIGSTOP-SIGCONT, SIGTSTP-SIGCONT, a stop with the terminal handed back and forth as a job-control shell does, SIGWINCH, a real window-size change, a window-size change while stopped, or a drawn sequence of 2-5 of these; the moment: idle prompt, half-typed line, shell attached and talking, muted, right before the exit; the self-exit that follows: Ctrl+C, Ctrl+D, -one-shell completion; option set) for engine signal, (start-up fault whose detection comes after the events: damaged certificate cache delivered through a FIFO, listen address in use; events) for engine sigfault; every case is a run of the real, race-built binary judged on exit status, complete output and termios of the pty before/after"
+	r.Rule = "one distinct case = (set of injected start-up faults by name, informational flag, TTY or not, and - engines logged/loggedpair - the way an OPENABLE log file is configured on top: -log or CURLREVSHELL_LOG, file fresh or already there; engines stdio/stdiopair - what descriptors 0, 1 and 2 are while the pty stays the CONTROLLING terminal: the terminal, /dev/null, a pipe, a regular file, closed) for fault runs, (way of ending, option set) for clean exits, (way of ending, what descriptors 0-2 are, option set) for clean exits with redirected descriptors (engine stdioclean), (kind of unusable Ctrl+I source or member, member name, -print-ctrl-i on a TTY / without one / into a pipe / into a file or Tab / Ctrl+J followed by Ctrl+C / Ctrl+D, other fault) for the Ctrl+I source runs (engine ctrlisrc), (way of ending, when Tab was pressed relative to it, shell none/attached/stalled, kind of Ctrl+I source, option set) for exits with insertions pending, (signals / terminal events delivered to the running program: SIGCONT alone, to the process or its group, SIGSTOP-SIGCONT, SIGTSTP-SIGCONT, a stop with the terminal handed back and forth as a job-control shell does, SIGWINCH, a real window-size change, a window-size change while stopped, or a drawn sequence of 2-5 of these; the moment: idle prompt, half-typed line, shell attached and talking, muted, right before the exit; the self-exit that follows: Ctrl+C, Ctrl+D, -one-shell completion; option set) for engine signal, (start-up fault whose detection comes after the events: damaged certificate cache delivered through a FIFO, listen address in use; events) for engine sigfault, (what /dev/tty is in the program's private mount namespace: /dev/null, /dev/zero, /dev/full, an empty or non-empty regular file, a socket, a node that may not be read, a pty whose other end has been closed, a directory, nothing, a dangling link, a link loop; informational flag; descriptors 0-2: all on the pty that is the controlling terminal, no controlling terminal and pipes, all /dev/null, or a mixture; optionally one fault of another class) for engines badtty and badttypair; every case is a run of the real, race-built binary judged on exit status, complete output and termios of the pty before/after"
 	r.Assumptions = append(r.Assumptions,
 		"the program is started as a session leader on a fresh pty (TTY) or with setsid, no controlling terminal and stdio on pipes/dev-null (no TTY)",
 		"'names the cause' is judged by class keywords (tty|terminal, listen, cach|certificate, log, ctrl+i|insert|source), case-insensitively, on pty+stdout+stderr; the offending path/address is only counted, not demanded",
@@ -1373,6 +1430,7 @@ func Run(r *mon.Run) {
 		"Ctrl+I source class widened from missing/unset to 'exists but holds something unusable': a directory with one good member and one member named *.sh / *.subr / *.pl that is a dangling symbolic link (absolute, relative), a two-link loop, unreadable (uid 65534, mode 000), a FIFO, a socket, a directory, a link to a directory / FIFO / device, or a file removed and recreated in a loop while the program runs; a directory whose names can be listed but whose members cannot be examined, or which cannot be listed (uid 65534, modes 0744 / 0711); a single source that is unreadable, a link loop, a socket, a link to a device or FIFO, or below an unsearchable directory; with -print-ctrl-i (TTY, no TTY, stdout into a pipe or file, and paired with a listen / log / cache fault) the statement is read as: the program may fail or may succeed without the member; no crash output or signal, a non-zero status comes with a message naming a cause, terminal mode restored; not exiting within 30 s is inconclusive (a FIFO being read is first given a writer); interactively Tab or Ctrl+J is pressed 1-3 times, the reaction awaited for at most 10 s (steering only), then Ctrl+C / Ctrl+D: no crash output, terminal mode restored, and status 0 if the program was still running when asked to leave",
 		"signals and terminal events during the session (engines signal, sigfault): the harness is the parent of the program, which is the leader of its own session and process group on the pty; it delivers with kill(pid) / kill(-pgid): SIGCONT to a program that was never stopped, SIGSTOP then (after 0-120 ms) SIGCONT with the terminal left alone (a supervisor, a debugger), SIGTSTP to the group then SIGCONT (whether the program really stops is only counted: the kernel discards SIGTSTP's default action for the orphaned group of a session leader), SIGSTOP during which the terminal is put in the mode found and then back in the mode the program had set before SIGCONT (what a job-control shell does on stop / fg), SIGWINCH with the window unchanged, TIOCSWINSZ with another size (2-101 rows, 20-299 columns; through a descriptor of the terminal the harness opens via /proc/PID/fd/0), one or two size changes while the program is stopped, and sequences of 2-5 of these; each at the idle prompt, after 1-200 typed characters without Enter, while an attached shell sends a line every 3 ms, after Ctrl+O ('Muting'), and directly before the exit is asked for (for half of those cases, if the events contain a stop, the exit key is typed - or the shell of -one-shell ends - while the program is stopped, with the terminal in the program's own mode); in all but the last moment the exit is only asked for once the program has shown the shell's last line and reacted to a typed key (bounded wait, expiry = inconclusive); then Ctrl+C, Ctrl+D (after Enter, if a line is half typed) or the end of the shell under -one-shell (plus Enter if the program is still there 300 ms after 'Shell is gone': steering only); judged like every clean exit: status 0 (not demanded if the program had already left when it was asked to), no crash output or death by signal, termios of the controlling terminal after exit equal to the one before start; nothing is judged while the program is stopped, every stop is followed by SIGCONT",
 		"start-up faults with signals before the failure is detected: -tls-certificate-cache names a FIFO; the program having changed the terminal sits in the open/read of its cache (the harness sees the FIFO gain a reader), the events are delivered, then the harness writes random bytes / a valid archive cut short / nothing and closes: a damaged certificate cache, noticed after the signals; and the listen address in use with the events sent right after exec, racing the start-up (whatever the order); oracle of the fault runs: non-zero status, a message naming the cause, no crash output, terminal mode restored",
+		"terminals that are there but unusable (engines badtty, badttypair; class 'no controlling terminal' widened from 'there is none' to 'the program cannot use the one it finds'): the harness runs as root and starts the program through a copy of itself that unshares the mount namespace of its thread (CLONE_NEWNS, every mount made private first, the new namespace checked to differ from the parent's), bind-mounts over /dev/tty one of /dev/null, /dev/zero, /dev/full, an empty regular file, a regular file with text, a socket node, a character node of mode 000 (program run as uid 65534), the slave node of a new pty whose master it then closes - or mounts a small tmpfs over /dev (null, zero, full, random, urandom, fd, stdin, stdout, stderr) in which /dev/tty is a directory, absent, a dangling symbolic link or a two-link loop - drops to uid 65534 where the case needs it and replaces itself with the program (same process: still the session leader of the pty); as sandboxes and minimal containers present themselves; a probe run in the same way records per kind what open(/dev/tty) and TIOCGWINSZ/TCGETS give there (open works and the ioctl fails with ENOTTY, or open fails with ENXIO/ENOENT/ELOOP/EACCES/EIO; a kind that turns out to be a working terminal or cannot be built is dropped and listed) and checks that neither the harness's own /dev/tty nor its mount table changed; each kind is run with descriptors 0-2 on the pty that is the controlling terminal, without controlling terminal and on pipes, all on /dev/null, and on mixtures, alone, with each informational flag, and together with a fault of another class; the oracle is the one of the other fault runs: non-zero status, a message naming a cause (tty|terminal, or the other fault's class) where stdout/stderr can be seen, no crash output or signal, termios of the pty unchanged; if no private mount namespace can be made here the dimension is reported as not explored (coverage.unusable_dev_tty_dimension_explored=false, a line here) and has no floors; FIFOs are left out (opening one for reading waits for a writer: not a failure)",
 		"default-location cache faults: no -tls-certificate-cache argument; HOME / XDG_CACHE_HOME point below /proc, below a regular file, or (uid 65534) into a root-owned 0555 directory",
 	)
 
@@ -1433,6 +1491,24 @@ func Run(r *mon.Run) {
 		r.Extra("privileged_ports_refused_to_uid_65534", e.privPorts)
 	}
 	e.faults = buildFaults(e, uidOK, nonLocalOK)
+	// A /dev/tty that is there but unusable: needs private mount namespaces.
+	var ttyNote string
+	if e.ttyw, ttyNote = probeBadTTY(e, uidOK); e.ttyw == nil {
+		r.Logf("unusable-/dev/tty dimension not explored: %s", ttyNote)
+		r.Assumptions = append(r.Assumptions, "a private mount namespace in which /dev/tty is something else could not be made in this environment ("+ttyNote+"): the terminals-that-are-there-but-unusable cases were NOT explored in this run")
+		r.Extra("unusable_dev_tty_dimension_explored", false)
+	} else {
+		r.Extra("unusable_dev_tty_dimension_explored", true)
+		kinds := map[string]string{}
+		for k, how := range e.ttyw.how {
+			kinds[ttyKinds[k].name] = how
+		}
+		r.Extra("unusable_dev_tty_kinds_and_what_the_probe_saw", kinds)
+		if ttyNote != "" {
+			r.Extra("unusable_dev_tty_kinds_not_available", ttyNote)
+			r.Assumptions = append(r.Assumptions, "kinds of unusable /dev/tty that could not be built here and were NOT explored: "+ttyNote)
+		}
+	}
 	r.Extra("fault_list", func() []string {
 		var n []string
 		for _, f := range e.faults {
@@ -1657,6 +1733,10 @@ func Run(r *mon.Run) {
 		}
 		addStdio("stdiopair", i, []int{p.a, p.b}, flNone, sp)
 	}
+	// ---- /dev/tty is there but is not a usable terminal ----
+	if e.ttyw != nil {
+		badTTYCases(e, e.ttyw, func(c caseSpec) { cases = append(cases, c) })
+	}
 	r.Extra("fault_pairs_possible", len(prs))
 	r.Logf("%d faults, %d cross-class pairs, %d fault runs planned", len(e.faults)+1, len(prs), len(cases))
 
@@ -1801,7 +1881,7 @@ func Run(r *mon.Run) {
 	<-sgDone
 
 	// Report in a fixed order (engine, index), not in completion order.
-	order := map[string]int{"single": 0, "pair": 1, "logged": 2, "loggedpair": 3, "stdio": 4, "stdiopair": 5, "clean": 6, "icanhazip": 7, "stdioclean": 8, "ctrlisrc": 9, "pending": 10, "signal": 11, "sigfault": 12}
+	order := map[string]int{"single": 0, "pair": 1, "logged": 2, "loggedpair": 3, "stdio": 4, "stdiopair": 5, "clean": 6, "icanhazip": 7, "stdioclean": 8, "ctrlisrc": 9, "pending": 10, "signal": 11, "sigfault": 12, "badtty": 13, "badttypair": 14}
 	sort.SliceStable(col.fs, func(i, j int) bool {
 		a, b := col.fs[i], col.fs[j]
 		if order[a.engine] != order[b.engine] {
@@ -1917,6 +1997,8 @@ func Run(r *mon.Run) {
 	r.Floor("pending_tabs_pressed", 2000)
 	// Signals and terminal events during the session.
 	sigFloors(r)
+	// /dev/tty is there but unusable.
+	badTTYFloors(e)
 	r.Floor("runs_tty", 50)
 	r.Floor("runs_notty", 25)
 	r.Floor("termios_comparisons", 50)
